@@ -7,6 +7,7 @@ Only observation: attrs.fields, enum members, module attributes, the catalogue d
 """
 import enum
 import json
+import os
 import sys
 import typing
 
@@ -145,9 +146,40 @@ def image(types, converters):
     return out
 
 
+def use_package(types, converters):
+    """What an application does before anybody looks at the classes again: several converters (one of them its own),
+    messages parsed and written, objects built, compared and changed."""
+    import cattrs
+    c1 = converters.get_converter()
+    c2 = converters.get_converter(cattrs.Converter(detailed_validation=False))
+    msgs = [(types.InitializeRequest, {"jsonrpc": "2.0", "id": 1, "method": "initialize", "params": {"capabilities": {}, "processId": None, "rootUri": None}}),
+            (types.HoverResponse, {"jsonrpc": "2.0", "id": 1, "result": {"contents": "x", "range": {"start": {"line": 0, "character": 0}, "end": {"line": 0, "character": 1}}}}),
+            (types.DefinitionResponse, {"jsonrpc": "2.0", "id": 2, "result": []}),
+            (types.ExitNotification, {"jsonrpc": "2.0", "method": "exit"}),
+            (types.FoldingRange, {"startLine": 1, "endLine": 2, "kind": "custom"}),
+            (types.CreateFile, {"uri": "file:///a", "kind": "create"})]
+    for conv in (c1, c2, c1):
+        for cls, data in msgs:
+            try:
+                obj = conv.structure(data, cls)
+                conv.unstructure(obj, cls)
+            except Exception:  # noqa: BLE001  (judged elsewhere; here only the classes afterwards matter)
+                pass
+    p = types.Position(line=1, character=2)
+    p < types.Position(line=1, character=3)
+    p.line = 5
+    for bad in (lambda: types.Position(line=-1, character=0), lambda: types.CreateFile(uri="u", kind="other")):
+        try:
+            bad()
+        except Exception:  # noqa: BLE001
+            pass
+
+
 def main(argv):
     from lsprotocol import converters, types
     from .codec_driver import norm_table
+    if os.environ.get("VERIF_IMAGE_STAGE") == "used":
+        use_package(types, converters)
     img = image(types, converters)
     img["norm"] = norm_table(argv[2])
     json.dump(img, open(argv[1], "w"))
